@@ -29,9 +29,13 @@ A_TEXT = ("#[[[ @module\n# Module text of a.\n#]]\n\n#[[[\n# A class.\n#]]\ncpp_
 def layout():
     return {
         "kdir/kfile.cmake": K_TEXT, "tfile.cmake": T_TEXT, "empty.cmake": "",
-        "dtree/a.cmake": A_TEXT, "dtree/zz.cmake": fsbox.cmake_content("zz"), "dtree/sub/b.cmake": fsbox.cmake_content("b"),
+        "dtree/a.cmake": A_TEXT, "dtree/zz.cmake": fsbox.cmake_content("zz"), "dtree/Zz.cmake": fsbox.cmake_content("Zz-upper"), "dtree/sub/b.cmake": fsbox.cmake_content("b"),
         "dtree/sub/deep/c.cmake": fsbox.cmake_content("c"), "dtree/sub/deep/k2.cmake": K_TEXT,
-        "other/o1.cmake": fsbox.cmake_content("o1"), "other/in/o2.cmake": T_TEXT,
+        # plain_fn has the same declared parameter names as K's kfun but no keyword arguments
+        "other/o1.cmake": fsbox.cmake_content("o1") + "\nfunction(plain_fn a)\nendfunction()\nmacro(plain_mac)\nendmacro()\n",
+        "other/in/o2.cmake": T_TEXT,
+        "strip.yaml": "input:\n  function_parameter_name_strip_regex: '^_'\n  macro_parameter_name_strip_regex: '^_'\n"
+                      "  member_parameter_name_strip_regex: '^_'\nrst:\n  module_path_separator: '/'\n",
     }
 
 
@@ -41,7 +45,11 @@ CLI = ("import sys; sys.path.insert(0, %r); import warnings; warnings.filterwarn
        "cminx.main(sys.argv[1:])")
 
 
-def reference(seedval="0"):
+def cfg_args(cfg, base):
+    return ["-s", os.path.join(base, "strip.yaml")] if cfg == "strip" else []
+
+
+def reference(seedval="0", cfg="default"):
     """R[x] = {relative output path: text} for each input alone, fresh process each, reference location"""
     box = fsbox.Box("c17ref")
     R = {}
@@ -51,7 +59,8 @@ def reference(seedval="0"):
                    PYTHONHASHSEED=seedval)
         for x, rel in INPUTS.items():
             out = box.path("work", "ref-" + x)
-            p = subprocess.run([common.PYTHON, "-c", CLI % common.REPO_SRC, "-r", "-o", out, rel], cwd=box.path("work"),
+            p = subprocess.run([common.PYTHON, "-c", CLI % common.REPO_SRC] + cfg_args(cfg, box.path("work")) +
+                               ["-r", "-o", out, rel], cwd=box.path("work"),
                                env=env, capture_output=True, text=True)
             if p.returncode != 0:
                 raise common.HarnessFault(f"reference run for input {x} failed: {p.stderr[-300:]}")
@@ -87,8 +96,10 @@ def compare(got, exp, what):
     return msgs
 
 
-def _run_history(job, R):
-    history, mode, cwd = job
+def _run_history(job, RR):
+    history, mode, cwd = job[:3]
+    cfg = job[3] if len(job) > 3 else "default"
+    R = RR[cfg]
     box = fsbox.Box("c17")
     msgs = []
     try:
@@ -101,17 +112,19 @@ def _run_history(job, R):
             p = os.path.join(base, INPUTS[x])
             return p if cwd == "root" else os.path.relpath(p, box.path(cwdp))
 
+        ca = cfg_args(cfg, base)
         if mode == "one-call":
-            r = box.run(["-r", "-o", out] + [spell(x) for x in history], cwd=cwdp)
+            r = box.run(ca + ["-r", "-o", out] + [spell(x) for x in history], cwd=cwdp)
             if r["status"] != 0:
                 msgs.append(f"error: run failed: {r['exc'] or r['stdout'][-200:]}")
         else:
             for x in history:
-                r = box.run(["-r", "-o", out, spell(x)], cwd=cwdp)
+                r = box.run(ca + ["-r", "-o", out, spell(x)], cwd=cwdp)
                 if r["status"] != 0:
                     msgs.append(f"error: run failed: {r['exc'] or r['stdout'][-200:]}")
         if not msgs:
-            msgs += compare(box.files("work/out"), expected_after(history, R), f"history {history} ({mode}, cwd {cwd})")
+            msgs += compare(box.files("work/out"), expected_after(history, R),
+                            f"history {history} ({mode}, cwd {cwd}, settings {cfg})")
     finally:
         box.cleanup()
     msgs = [m.replace(box.root, "<box>") for m in msgs]
@@ -119,9 +132,10 @@ def _run_history(job, R):
             "nt": common.digest(job) if len(history) >= 2 else None, "cls": msgs[0].split(":")[0] if msgs else None}
 
 
-def _run_env(job, R):
+def _run_env(job, RR):
     """one input under one or two environment deviations"""
     x, devs = job
+    R = RR["default"]
     devs = dict(devs)
     box = fsbox.Box("c17e")
     msgs = []
@@ -165,8 +179,9 @@ def _run_env(job, R):
             "nt": common.digest([x, str(sorted(devs.items(), key=str))]), "cls": msgs[0].split(":")[0] if msgs else None}
 
 
-def run_seed(seedval, R):
+def run_seed(seedval, RR):
     """all inputs in one subprocess under a given hash seed"""
+    R = RR["default"]
     box = fsbox.Box("c17s")
     msgs = []
     try:
@@ -187,12 +202,12 @@ def run_seed(seedval, R):
             "cls": msgs[0].split(":")[0] if msgs else None}
 
 
-def run_history(job, R):
-    return common.in_fork(_run_history, job, R)
+def run_history(job, RR):
+    return common.in_fork(_run_history, job, RR)
 
 
-def run_env(job, R):
-    return common.in_fork(_run_env, job, R)
+def run_env(job, RR):
+    return common.in_fork(_run_env, job, RR)
 
 
 def deviations(x):
@@ -200,7 +215,7 @@ def deviations(x):
             ("spelling", "abs"), ("spelling", "dotslash"), ("spelling", "updown"), ("listing", "reversed")]
     if x in ("D", "D2"):
         devs += [("spelling", "slash"), ("spelling", "dot")]
-        top = ["a.cmake", "sub", "zz.cmake"] if x == "D" else ["in", "o1.cmake"]
+        top = ["Zz.cmake", "a.cmake", "sub", "zz.cmake"] if x == "D" else ["in", "o1.cmake"]
         devs += [("listing", tuple(p)) for p in itertools.permutations(top)]
     return devs
 
@@ -211,6 +226,7 @@ def run(ctx):
     R2 = reference("4242")
     if R != R2:
         ctx.violation({"kind": "reference"}, compare(R2, R, "reference under hash seed 4242"), cls="bytes hash-seed")
+    R = {"default": R, "strip": reference("0", "strip")}
     names = list(INPUTS)
     n = 3 if quick else 4
     hjobs = []
@@ -221,7 +237,9 @@ def run(ctx):
                     continue
                 for cwd in (("work", "root") if k <= 3 else ("work",)):
                     hjobs.append((list(h), mode, cwd))
-    ctx.sweep(functools.partial(run_history, R=R), hjobs, space="run histories within one process", selftest=3)
+                if k <= 3:      # the same history under non-default settings (strip patterns, separator)
+                    hjobs.append((list(h), mode, "work", "strip"))
+    ctx.sweep(functools.partial(run_history, RR=R), hjobs, space="run histories within one process", selftest=3)
     ejobs = []
     for x in names:
         ds = deviations(x)
@@ -230,10 +248,10 @@ def run(ctx):
             for d1, d2 in itertools.combinations(ds, 2):
                 if d1[0] != d2[0]:
                     ejobs.append((x, (d1, d2)))
-    ctx.sweep(functools.partial(run_env, R=R), ejobs, space="environment deviations", selftest=3)
+    ctx.sweep(functools.partial(run_env, RR=R), ejobs, space="environment deviations", selftest=3)
     seeds = [0, 1, 4242, ctx.seed % (2 ** 32)]
-    ctx.sweep(functools.partial(run_seed, R=R), seeds, space="hash seeds (subprocess)", selftest=0, chunk=1)
-    ctx.cov["states"] = len({tuple(sorted(h)) for h, _, _ in hjobs})     # multisets of inputs already documented
+    ctx.sweep(functools.partial(run_seed, RR=R), seeds, space="hash seeds (subprocess)", selftest=0, chunk=1)
+    ctx.cov["states"] = len({tuple(sorted(j[0])) for j in hjobs})     # multisets of inputs already documented
     ctx.cov["bounds"] = {"inputs": INPUTS, "max_history": n, "hash_seeds": seeds, "env_jobs": len(ejobs)}
     ctx.assumptions += ["when two inputs of one run generate the same output path the later one wins (inherent to one "
                         "shared output directory); the expectation follows that rule",
@@ -243,13 +261,13 @@ def run(ctx):
 
 
 def replay(case):
-    R = reference()
+    R = {"default": reference(), "strip": reference("0", "strip")}
     if isinstance(case, dict):
-        return compare(reference("4242"), R, "reference under hash seed 4242") if case.get("kind") == "reference" else []
+        return compare(reference("4242"), R["default"], "reference under hash seed 4242") if case.get("kind") == "reference" else []
     if isinstance(case, int):
         return run_seed(case, R)["viol"]
-    if len(case) == 3:
-        return run_history((case[0], case[1], case[2]), R)["viol"]
+    if len(case) in (3, 4) and isinstance(case[0], list):
+        return run_history(tuple(case), R)["viol"]
     if len(case) == 2:
         return run_env((case[0], tuple((a, tuple(b) if isinstance(b, list) else b) for a, b in case[1])), R)["viol"]
     return run_seed(case, R)["viol"]
